@@ -191,6 +191,7 @@ func (d *depAn) deps(v ssa.Value) *depInfo {
 			case *ssa.IndexAddr:
 				add(d.deps(a.X))
 				add(d.deps(a.Index))
+				d.memDeps(x, add)
 			default:
 				add(d.deps(x.X))
 			}
@@ -241,6 +242,27 @@ func (d *depAn) deps(v ssa.Value) *depInfo {
 	d.busy[v] = false
 	d.memo[v] = out
 	return out
+}
+
+// memDeps: a load through an element address also depends on every value stored, in the same
+// function, through an address with the same root (index-insensitive).
+func (d *depAn) memDeps(load *ssa.UnOp, add func(*depInfo)) {
+	root := rootAddr(load.X)
+	fn := load.Parent()
+	if fn == nil {
+		return
+	}
+	for _, b := range fn.Blocks {
+		for _, in := range b.Instrs {
+			if st, ok := in.(*ssa.Store); ok && st.Addr != load.X || ok && st.Addr == load.X {
+				if rootAddr(st.Addr) == root {
+					if _, isIdx := st.Addr.(*ssa.IndexAddr); isIdx {
+						add(d.deps(st.Val))
+					}
+				}
+			}
+		}
+	}
 }
 
 // defNonNil: the error operand of a return is certainly non-nil.
